@@ -1310,7 +1310,10 @@ evbuffer_remove_buffer(struct evbuffer *src, struct evbuffer *dst,
 	/* short-cut if there is no more data buffered */
 	if (datlen >= src->total_len) {
 		datlen = src->total_len;
-		evbuffer_add_buffer(dst, src);
+		if (evbuffer_add_buffer(dst, src) < 0) {
+			result = -1;
+			goto done;
+		}
 		result = (int)datlen; /*XXXX should return ev_ssize_t*/
 		goto done;
 	}
@@ -1350,7 +1353,11 @@ evbuffer_remove_buffer(struct evbuffer *src, struct evbuffer *dst,
 
 	/* we know that there is more data in the src buffer than
 	 * we want to read, so we manually drain the chain */
-	evbuffer_add(dst, chain->buffer + chain->misalign, datlen);
+	if (evbuffer_add(dst, chain->buffer + chain->misalign, datlen) < 0) {
+		/* Could not copy the partial chain: nothing of it is consumed.
+		 * Report only the whole chains that were already moved. */
+		datlen = 0;
+	}
 	chain->misalign += datlen;
 	chain->off -= datlen;
 	nread += datlen;
